@@ -49,9 +49,9 @@ type c04Case struct {
 
 func (c04) Bounds(tier string) map[string]interface{} {
 	if tier == "thorough" {
-		return map[string]interface{}{"members": 9, "max_blocks": 3, "members_for_4_blocks": 8, "placements": []string{"onefile", "chain", "star", "star-rev", "tree"}}
+		return map[string]interface{}{"members": 9, "max_blocks": 3, "members_for_4_blocks": 8, "placements": []string{"onefile", "chain", "star", "star-rev", "tree", "shared-first"}}
 	}
-	return map[string]interface{}{"members": 7, "max_blocks": 3, "placements": []string{"onefile", "chain", "star", "star-rev", "tree"}}
+	return map[string]interface{}{"members": 7, "max_blocks": 3, "placements": []string{"onefile", "chain", "star", "star-rev", "tree", "shared-first"}}
 }
 
 func (c04) Cases(tier string, emit func(string, interface{})) {
@@ -85,12 +85,15 @@ func c04Cases(tier string, n, k, only int, emit func(string, interface{})) {
 			for _, p := range perm {
 				blocks = append(blocks, part[p+1])
 			}
-			for _, place := range []string{"onefile", "chain", "star", "star-rev", "tree"} {
+			for _, place := range []string{"onefile", "chain", "star", "star-rev", "tree", "shared-first"} {
 				if tier != "thorough" && nb == 3 && place == "star-rev" && perm[0] != 0 {
 					continue
 				}
 				if place == "tree" && nb < 3 {
 					continue // with two blocks it is the chain
+				}
+				if place == "shared-first" && tier != "thorough" && perm[0] != 0 {
+					continue
 				}
 				emit("split", c04Case{Members: members, Blocks: blocks, Place: place})
 			}
@@ -143,6 +146,21 @@ func c04Files(cs c04Case) filesCase {
 				imp = fmt.Sprintf("import f%d\n", i+1)
 			} else {
 				imp = "import sup\n"
+			}
+			files[name] = imp + render(cs.Blocks[i:i+1], i == 0)
+		}
+		files["sup.sysl"] = c04Support()
+	case "shared-first":
+		// a chain in which every file first imports the shared support file (already in the merge list from the
+		// second file on) and then the next block's file
+		for i := range cs.Blocks {
+			name := "r.sysl"
+			if i > 0 {
+				name = fmt.Sprintf("f%d.sysl", i)
+			}
+			imp := "import sup\n"
+			if i+1 < len(cs.Blocks) {
+				imp += fmt.Sprintf("import f%d\n", i+1)
 			}
 			files[name] = imp + render(cs.Blocks[i:i+1], i == 0)
 		}
